@@ -1,15 +1,392 @@
 /-
-Props/C08.lean — property C08 (work in progress: theorems are being added).
+Props/C08.lean — property C08: fit statistics and evidence follow their definitions on unmasked
+pixels only.
+
+All theorems are about the `Impl` layer of Model/Fit.lean (the transliteration of
+`autoarray/fit/fit_util.py`, `fit_dataset.py`, `fit_imaging.py` and the evidence terms of
+`inversion/inversion/abstract.py`), for every mask, every shape, every data / noise / model array,
+every background level and every list of linear objects; numbers range over an arbitrary field `α`
+(ordered where the signal-to-noise clip is concerned).  `log`, `2π` and the log-determinant are
+arbitrary functions: nothing is assumed about them, so every statement holds in particular for
+`Real.log`, `2 * Real.pi` and `log ∘ det`.
+Helper lemmas live in Proofs/Fit.lean.
 -/
 import Model.Fit
+import Model.Slim
+import Proofs.Fit
 
-open Model
+open Model Model.Impl.Fit Model.FitProofs
 
 namespace C08
 
-/-- figure of merit without an inversion is the log likelihood (placeholder while the file is built up) -/
-theorem c_figure_of_merit_no_inversion {α : Type} [Add α] [Sub α] [Mul α] [Div α] [Neg α] [OfNat α 0]
-    [OfNat α 1] [OfNat α 2] [BEq α] (log : α → α) (twoPi : α) (f : Impl.Fit.FitInput α) :
-    Impl.Fit.fitFigureOfMerit log twoPi f none = Impl.Fit.fitLogLikelihood log twoPi f := rfl
+variable {α : Type}
+
+/-! ## (a) the maps obey their definitions element-wise -/
+
+/-- (a0) the data a fit works with: `FitImaging` subtracts the dataset model's background sky level
+    from every stored entry, a plain `FitDataset` uses the data as it is. -/
+theorem a_background_offset [Field α] [BEq α] [LawfulBEq α] (f : FitInput α) :
+    fitData f = f.data.map (fun x => x - (if f.isImaging then f.background else 0)) :=
+  fitData_eq f
+
+/-- (a1) slim evaluation (`use_mask_in_fit = False`): at every stored entry `k`, with `x` the data
+    (after the background offset `b`), `y` the model and `z` the noise there,
+    residual `= x - y`, normalized residual `= (x - y)/z`, chi-squared map `= ((x - y)/z)²`,
+    residual flux fraction `= (x - y)/x`. -/
+theorem a_maps_slim [Field α] [BEq α] [LawfulBEq α] (f : FitInput α) (hu : f.useMask = false)
+    (k : Nat) (x y z : α)
+    (hx : f.data[k]? = some x) (hy : f.model[k]? = some y) (hz : f.noise[k]? = some z) :
+    let b := if f.isImaging then f.background else 0
+    (fitResidualMap f)[k]? = some (x - b - y)
+    ∧ (fitNormalizedResidualMap f)[k]? = some ((x - b - y) / z)
+    ∧ (fitChiSquaredMap f)[k]? = some (((x - b - y) / z) ^ 2)
+    ∧ (fitResidualFluxFractionMap f)[k]? = some ((x - b - y) / (x - b)) :=
+  slim_maps_getElem? f hu k x y z hx hy hz
+
+/-- (a2) masked-native evaluation (`use_mask_in_fit = True` on native-stored arrays): the same four
+    definitions at every unmasked cell, and zero at every masked cell whatever is stored there. -/
+theorem a_maps_masked [Field α] [BEq α] [LawfulBEq α] (f : FitInput α) (hu : f.useMask = true)
+    (k : Nat) (mk : Bool) (x y z : α) (hm : f.bits[k]? = some mk)
+    (hx : f.data[k]? = some x) (hy : f.model[k]? = some y) (hz : f.noise[k]? = some z) :
+    let b := if f.isImaging then f.background else 0
+    (fitResidualMap f)[k]? = some (if mk then 0 else x - b - y)
+    ∧ (fitNormalizedResidualMap f)[k]? = some (if mk then 0 else (x - b - y) / z)
+    ∧ (fitChiSquaredMap f)[k]? = some (if mk then 0 else ((x - b - y) / z) ^ 2)
+    ∧ (fitResidualFluxFractionMap f)[k]? = some (if mk then 0 else (x - b - y) / (x - b)) :=
+  masked_maps_getElem? f hu k mk x y z hm hx hy hz
+
+/-- (a3) signal-to-noise map: `data / noise` with negative values clipped to zero (so never
+    negative), entry by entry. -/
+theorem a_signal_to_noise_clipped [Field α] [LinearOrder α] [BEq α] [LawfulBEq α] (f : FitInput α)
+    (k : Nat) (x z : α) (hx : f.data[k]? = some x) (hz : f.noise[k]? = some z) :
+    let b := if f.isImaging then f.background else 0
+    (fitSignalToNoiseMap f)[k]? = some (max ((x - b) / z) 0)
+    ∧ ∀ v, (fitSignalToNoiseMap f)[k]? = some v → 0 ≤ v := by
+  intro b
+  have h := signalToNoise_getElem? (fitData f) f.noise k (x - b) z (fitData_getElem? f k x hx) hz
+  refine ⟨h, ?_⟩
+  intro v hv
+  rw [show fitSignalToNoiseMap f = signalToNoiseMap (fitData f) f.noise from rfl, h] at hv
+  cases hv
+  exact le_max_right _ _
+
+/-! ## (b) sums over unmasked pixels only; masked cells never matter; both modes agree -/
+
+/-- (b0) numpy's `a[mask == 0]` on a native array is exactly C01's `array_2d_slim_from`. -/
+theorem b_select_is_slim (m : Mask) (hm : m.WF) (a : List α) (zero : α) (ha : a.length = m.h * m.w) :
+    selectUnmasked m.bits a = Impl.slimFrom m a zero :=
+  selectUnmasked_eq_slimFrom m hm a zero ha
+
+/-- (b1) chi-squared and the noise normalization of the masked-native evaluation are the sums of
+    `((d_k - b - m_k)/n_k)²` and `log(2π n_k²)` over the unmasked flat positions `k` only. -/
+theorem b_masked_sums_over_unmasked [Field α] [BEq α] [LawfulBEq α] (log : α → α) (twoPi : α)
+    (f : FitInput α) (hu : f.useMask = true)
+    (hd : f.data.length = f.bits.length) (hm : f.model.length = f.bits.length)
+    (hn : f.noise.length = f.bits.length) :
+    let b := if f.isImaging then f.background else 0
+    let unmasked := (List.range f.bits.length).filter fun k => !f.bits.getD k true
+    fitChiSquared f
+      = (unmasked.map fun k => ((f.data.getD k 0 - b - f.model.getD k 0) / f.noise.getD k 0) ^ 2).sum
+    ∧ fitNoiseNormalization log twoPi f
+      = (unmasked.map fun k => log (twoPi * (f.noise.getD k 0) ^ 2)).sum :=
+  ⟨fitChiSquared_masked_sum f hu hd hm hn, fitNoiseNormalization_masked_sum log twoPi f hu hn⟩
+
+/-- (b2) the slim evaluation sums the same terms over every stored entry (one per unmasked pixel). -/
+theorem b_slim_sums [Field α] [BEq α] [LawfulBEq α] (log : α → α) (twoPi : α)
+    (f : FitInput α) (hu : f.useMask = false) (N : Nat)
+    (hd : f.data.length = N) (hm : f.model.length = N) (hn : f.noise.length = N) :
+    let b := if f.isImaging then f.background else 0
+    fitChiSquared f
+      = ((List.range N).map fun k =>
+          ((f.data.getD k 0 - b - f.model.getD k 0) / f.noise.getD k 0) ^ 2).sum
+    ∧ fitNoiseNormalization log twoPi f = (f.noise.map fun z => log (twoPi * z ^ 2)).sum :=
+  ⟨fitChiSquared_slim_sum f hu N hd hm hn, fitNoiseNormalization_slim_sum log twoPi f hu⟩
+
+/-- (b3) the two evaluation modes agree: on native arrays `d n mo` with arbitrary values in masked
+    cells, the masked-native fit and the slim fit on `array_2d_slim_from` of the same arrays have
+    equal chi-squared, noise normalization and log likelihood, and every masked-native map restricted
+    to the unmasked pixels is the corresponding slim map. -/
+theorem b_masked_native_eq_slim [Field α] [BEq α] [LawfulBEq α] (log : α → α) (twoPi : α)
+    (m : Mask) (hm : m.WF) (img : Bool) (d n mo : List α) (bg : α)
+    (hd : d.length = m.h * m.w) (hn : n.length = m.h * m.w) (hmo : mo.length = m.h * m.w) :
+    let fN : FitInput α := { useMask := true, isImaging := img, bits := m.bits, data := d, noise := n,
+                             model := mo, background := bg }
+    let fS : FitInput α := { useMask := false, isImaging := img, bits := m.bits,
+                             data := Impl.slimFrom m d 0, noise := Impl.slimFrom m n 0,
+                             model := Impl.slimFrom m mo 0, background := bg }
+    fitChiSquared fN = fitChiSquared fS
+    ∧ fitNoiseNormalization log twoPi fN = fitNoiseNormalization log twoPi fS
+    ∧ fitLogLikelihood log twoPi fN = fitLogLikelihood log twoPi fS
+    ∧ selectUnmasked m.bits (fitResidualMap fN) = fitResidualMap fS
+    ∧ selectUnmasked m.bits (fitNormalizedResidualMap fN) = fitNormalizedResidualMap fS
+    ∧ selectUnmasked m.bits (fitChiSquaredMap fN) = fitChiSquaredMap fS
+    ∧ selectUnmasked m.bits (fitResidualFluxFractionMap fN) = fitResidualFluxFractionMap fS := by
+  intro fN fS
+  have h1 := fitChiSquared_native_eq_slim m hm img d n mo bg hd hn hmo
+  have h2 := fitNoiseNormalization_native_eq_slim m hm img d n mo bg hn log twoPi
+  refine ⟨h1, h2, ?_, select_fitResidualMap m hm img d n mo bg hd hmo,
+    select_fitNormalizedResidualMap m hm img d n mo bg hd hn hmo,
+    select_fitChiSquaredMap m hm img d n mo bg hd hn hmo,
+    select_fitResidualFluxFractionMap m hm img d n mo bg hd hmo⟩
+  show logLikelihood (fitChiSquared fN) (fitNoiseNormalization log twoPi fN)
+     = logLikelihood (fitChiSquared fS) (fitNoiseNormalization log twoPi fS)
+  rw [show fitChiSquared fN = fitChiSquared fS from h1,
+      show fitNoiseNormalization log twoPi fN = fitNoiseNormalization log twoPi fS from h2]
+
+/-- (b4) values carried in masked cells never change anything: two masked-native fits whose data,
+    noise and model arrays agree at every unmasked cell have the same chi-squared, noise
+    normalization, log likelihood, and identical residual / normalized-residual / chi-squared maps. -/
+theorem b_masked_values_irrelevant [Field α] [BEq α] [LawfulBEq α] (log : α → α) (twoPi : α)
+    (f g : FitInput α) (hf : f.useMask = true) (hg : g.useMask = true)
+    (hbits : g.bits = f.bits) (himg : g.isImaging = f.isImaging) (hbg : g.background = f.background)
+    (hfd : f.data.length = f.bits.length) (hfm : f.model.length = f.bits.length)
+    (hfn : f.noise.length = f.bits.length)
+    (hgd : g.data.length = f.bits.length) (hgm : g.model.length = f.bits.length)
+    (hgn : g.noise.length = f.bits.length)
+    (hagree : ∀ k, f.bits.getD k true = false →
+      f.data.getD k 0 = g.data.getD k 0 ∧ f.model.getD k 0 = g.model.getD k 0
+        ∧ f.noise.getD k 0 = g.noise.getD k 0) :
+    fitChiSquared f = fitChiSquared g
+    ∧ fitNoiseNormalization log twoPi f = fitNoiseNormalization log twoPi g
+    ∧ fitLogLikelihood log twoPi f = fitLogLikelihood log twoPi g
+    ∧ fitResidualMap f = fitResidualMap g
+    ∧ fitNormalizedResidualMap f = fitNormalizedResidualMap g
+    ∧ fitChiSquaredMap f = fitChiSquaredMap g := by
+  have hb : bgEff g = bgEff f := by simp [bgEff, himg, hbg]
+  have hc : fitChiSquared f = fitChiSquared g := by
+    rw [fitChiSquared_masked_sum f hf hfd hfm hfn,
+      fitChiSquared_masked_sum g hg (by rw [hbits]; exact hgd) (by rw [hbits]; exact hgm)
+        (by rw [hbits]; exact hgn), hbits, hb]
+    congr 1
+    apply List.map_congr_left
+    intro k hk
+    simp only [Spec.Fit.unmaskedIdx, List.mem_filter] at hk
+    obtain ⟨h1, h2, h3⟩ := hagree k (by simpa using hk.2)
+    rw [h1, h2, h3]
+  have hnn : fitNoiseNormalization log twoPi f = fitNoiseNormalization log twoPi g := by
+    rw [fitNoiseNormalization_masked_sum log twoPi f hf hfn,
+      fitNoiseNormalization_masked_sum log twoPi g hg (by rw [hbits]; exact hgn), hbits]
+    congr 1
+    apply List.map_congr_left
+    intro k hk
+    simp only [Spec.Fit.unmaskedIdx, List.mem_filter] at hk
+    rw [(hagree k (by simpa using hk.2)).2.2]
+  -- the maps: compare entry by entry
+  have hlenD : ∀ h : FitInput α, h.useMask = true → h.data.length = f.bits.length →
+      h.model.length = f.bits.length → h.noise.length = f.bits.length → h.bits = f.bits →
+      (fitResidualMap h).length = f.bits.length
+      ∧ (fitNormalizedResidualMap h).length = f.bits.length
+      ∧ (fitChiSquaredMap h).length = f.bits.length := by
+    intro h hu h1 h2 h3 h4
+    have r : (fitResidualMap h).length = f.bits.length := by
+      simp only [fitResidualMap, hu, if_true]
+      rw [← h4]
+      exact residualMapWithMask_length _ _ _ (by rw [fitData_length, h4]; exact h1) (by rw [h4]; exact h2)
+    refine ⟨r, ?_, ?_⟩
+    · simp only [fitNormalizedResidualMap, hu, if_true]
+      rw [← h4]
+      exact maskedZipWith_length _ _ _ _ (by rw [h4]; exact r) (by rw [h4]; exact h3)
+    · simp only [fitChiSquaredMap, hu, if_true, chiSquaredMapWithMask, List.length_map]
+      rw [← h4]
+      exact maskedZipWith_length _ _ _ _ (by rw [h4]; exact r) (by rw [h4]; exact h3)
+  obtain ⟨lf1, lf2, lf3⟩ := hlenD f hf hfd hfm hfn rfl
+  obtain ⟨lg1, lg2, lg3⟩ := hlenD g hg hgd hgm hgn hbits
+  have hentry : ∀ k, k < f.bits.length →
+      (fitResidualMap f)[k]? = (fitResidualMap g)[k]?
+      ∧ (fitNormalizedResidualMap f)[k]? = (fitNormalizedResidualMap g)[k]?
+      ∧ (fitChiSquaredMap f)[k]? = (fitChiSquaredMap g)[k]? := by
+    intro k hk
+    have hbk := getElem?_eq_some_getD f.bits k true hk
+    have e1 := masked_maps_getElem? f hf k _ _ _ _ hbk
+      (getElem?_eq_some_getD f.data k 0 (by omega)) (getElem?_eq_some_getD f.model k 0 (by omega))
+      (getElem?_eq_some_getD f.noise k 0 (by omega))
+    have e2 := masked_maps_getElem? g hg k _ _ _ _ (by rw [hbits]; exact hbk)
+      (getElem?_eq_some_getD g.data k 0 (by omega)) (getElem?_eq_some_getD g.model k 0 (by omega))
+      (getElem?_eq_some_getD g.noise k 0 (by omega))
+    rw [e1.1, e1.2.1, e1.2.2.1, e2.1, e2.2.1, e2.2.2.1, hb]
+    cases hmk : f.bits.getD k true
+    · obtain ⟨h1, h2, h3⟩ := hagree k hmk
+      rw [h1, h2, h3]
+      simp
+    · simp
+  have hext : ∀ (A B : List α), A.length = f.bits.length → B.length = f.bits.length →
+      (∀ k, k < f.bits.length → A[k]? = B[k]?) → A = B := by
+    intro A B hA hB h
+    apply List.ext_getElem?
+    intro k
+    by_cases hk : k < f.bits.length
+    · exact h k hk
+    · rw [List.getElem?_eq_none (by omega), List.getElem?_eq_none (by omega)]
+  refine ⟨hc, hnn, ?_, hext _ _ lf1 lg1 (fun k hk => (hentry k hk).1),
+    hext _ _ lf2 lg2 (fun k hk => (hentry k hk).2.1), hext _ _ lf3 lg3 (fun k hk => (hentry k hk).2.2)⟩
+  show logLikelihood (fitChiSquared f) (fitNoiseNormalization log twoPi f)
+     = logLikelihood (fitChiSquared g) (fitNoiseNormalization log twoPi g)
+  rw [hc, hnn]
+
+/-! ## (c) likelihood, evidence, figure of merit -/
+
+/-- (c1) `log_likelihood = -(chi_squared + noise_normalization) / 2`. -/
+theorem c_log_likelihood [Field α] [BEq α] (log : α → α) (twoPi : α) (f : FitInput α) :
+    fitLogLikelihood log twoPi f = -(fitChiSquared f + fitNoiseNormalization log twoPi f) / 2 := by
+  unfold fitLogLikelihood logLikelihood negHalf
+  ring
+
+/-- (c2) with an inversion, `log_evidence = -(χ² + sᵀHs + ld(F+H) - ld(H) + norm)/2` and
+    `log_likelihood_with_regularization = -(χ² + sᵀHs + norm)/2`; without one both are `None`. -/
+theorem c_log_evidence [Field α] [BEq α] (log : α → α) (twoPi : α) (f : FitInput α) (t : InvTerms α) :
+    fitLogEvidence log twoPi f (some t)
+      = some (-(fitChiSquared f + t.regularizationTerm + t.logDetCurvatureReg - t.logDetRegularization
+              + fitNoiseNormalization log twoPi f) / 2)
+    ∧ fitLogLikelihoodWithRegularization log twoPi f (some t)
+      = some (-(fitChiSquared f + t.regularizationTerm + fitNoiseNormalization log twoPi f) / 2)
+    ∧ fitLogEvidence log twoPi f none = none
+    ∧ fitLogLikelihoodWithRegularization log twoPi f none = none := by
+  refine ⟨?_, ?_, rfl, rfl⟩
+  · simp only [fitLogEvidence, Option.map_some, logEvidence, negHalf]
+    congr 1; ring
+  · simp only [fitLogLikelihoodWithRegularization, Option.map_some, logLikelihoodWithRegularization,
+      negHalf]
+    congr 1; ring
+
+/-- (c3) the figure of merit is the evidence when an inversion is present and the likelihood
+    otherwise. -/
+theorem c_figure_of_merit [Field α] [BEq α] (log : α → α) (twoPi : α) (f : FitInput α) :
+    (∀ t : InvTerms α, some (fitFigureOfMerit log twoPi f (some t)) = fitLogEvidence log twoPi f (some t))
+    ∧ fitFigureOfMerit log twoPi f none = fitLogLikelihood log twoPi f := by
+  refine ⟨fun t => ?_, rfl⟩
+  simp [fitFigureOfMerit, fitLogEvidence]
+
+/-- (c4) an inversion none of whose linear objects is regularized contributes three zero terms, so
+    its evidence is the plain likelihood. -/
+theorem c_unregularized_inversion_gives_likelihood [Field α] [BEq α] (log : α → α) (twoPi : α)
+    (logDet : List (List α) → α) (f : FitInput α) (F : List (List α)) (s : List α)
+    (objs : List (LinObj α)) (h : hasRegularization objs = false) :
+    fitFigureOfMerit log twoPi f (some (invTerms logDet F s objs)) = fitLogLikelihood log twoPi f := by
+  simp only [fitFigureOfMerit, fitLogEvidence, Option.map_some, invTerms, regularizationTerm,
+    logDetCurvatureRegTerm, logDetRegularizationTerm, h, Bool.not_false, if_true, logEvidence,
+    fitLogLikelihood, logLikelihood]
+  ring
+
+/-! ## (d) the evidence terms live on the regularized parameters only -/
+
+/-- (d1) `no_regularization_index_list` is, object by object in order, the block of parameter indices
+    of every linear object without a regularization scheme (`Spec.Fit.noRegFrom`), i.e. index `i`
+    is listed iff it falls in the parameter range of such an object. -/
+theorem d_no_regularization_index_list (objs : List (LinObj α)) :
+    noRegularizationIndexList objs = Spec.Fit.noRegFrom 0 objs
+    ∧ ∀ (o : LinObj α) (os : List (LinObj α)) (i : Nat),
+        i ∈ Spec.Fit.noRegFrom 0 (o :: os)
+          ↔ (o.reg.isNone = true ∧ i < o.params)
+            ∨ (o.params ≤ i ∧ i - o.params ∈ Spec.Fit.noRegFrom 0 os) :=
+  ⟨noRegularizationIndexList_eq objs, mem_noRegFrom_cons⟩
+
+/-- (d2) `regularization_matrix` (block-diagonal, zero blocks for unregularized objects) is
+    `total_params × total_params` and vanishes on every row and every column belonging to an
+    unregularized parameter. -/
+theorem d_regularization_matrix_unregularized_zero [Field α] (objs : List (LinObj α))
+    (hwf : ObjsWF objs) :
+    (regularizationMatrix objs).length = totalParams objs
+    ∧ (∀ r ∈ regularizationMatrix objs, r.length = totalParams objs)
+    ∧ ∀ i j, (i ∈ noRegularizationIndexList objs ∨ j ∈ noRegularizationIndexList objs) →
+        (((regularizationMatrix objs).getD i []).getD j 0) = 0 := by
+  obtain ⟨d1, d2⟩ := regularizationMatrix_dims objs hwf
+  refine ⟨d1, d2, ?_⟩
+  intro i j hij
+  rw [noRegularizationIndexList_eq] at hij
+  exact regularizationMatrix_zero objs hwf i j hij
+
+/-- (d3) `regularization_term`, although computed from the reduced vector and matrix, equals the full
+    quadratic form `sᵀ H s` (the unregularized block of `H` is zero). -/
+theorem d_regularization_term_reduced [Field α] (objs : List (LinObj α)) (hwf : ObjsWF objs)
+    (s : List α) (hs : s.length = totalParams objs) (hhas : hasRegularization objs = true) :
+    regularizationTerm s objs = dot s (matVec (regularizationMatrix objs) s) :=
+  regularizationTerm_eq_full objs hwf s hs hhas
+
+/-- (d4) partially regularized list: the matrices handed to the two log-determinants are exactly
+    `F + H` and `H` with the rows and columns of the unregularized parameters removed — entry `(a,b)`
+    of the reduced matrix is entry `(keep[a], keep[b])` of the full one, `keep` the ascending list of
+    regularized parameter indices — and the reduced reconstruction is `s` at `keep`. -/
+theorem d_reduced_matrices [Field α] (logDet : List (List α) → α) (objs : List (LinObj α))
+    (hwf : ObjsWF objs) (F : List (List α)) (s : List α)
+    (hF : F.length = totalParams objs) (hFr : ∀ r ∈ F, r.length = totalParams objs)
+    (hs : s.length = totalParams objs)
+    (hhas : hasRegularization objs = true) (hall : allHaveRegularization objs = false) :
+    let keep := (List.range (totalParams objs)).filter fun i => !(noRegularizationIndexList objs).contains i
+    let H := regularizationMatrix objs
+    let FHred := keep.map fun i => keep.map fun j => (F.getD i []).getD j 0 + (H.getD i []).getD j 0
+    let Hred := keep.map fun i => keep.map fun j => (H.getD i []).getD j 0
+    curvatureRegMatrixReduced F objs = FHred
+    ∧ regularizationMatrixReduced objs = Hred
+    ∧ reconstructionReduced s objs = keep.map (fun i => s.getD i 0)
+    ∧ logDetCurvatureRegTerm logDet F objs = logDet FHred
+    ∧ logDetRegularizationTerm logDet objs = logDet Hred := by
+  intro keep H FHred Hred
+  obtain ⟨h1, h2, h3⟩ := reduced_entries objs hwf F s hF hFr hhas hall
+  have hk : keep = Spec.Fit.keepIdx (totalParams objs) (Spec.Fit.noRegFrom 0 objs) := by
+    simp only [keep, Spec.Fit.keepIdx, noRegularizationIndexList_eq]
+  rw [← hk] at h1 h2 h3
+  refine ⟨h1, h2, h3 hs, ?_, ?_⟩
+  · unfold logDetCurvatureRegTerm
+    simp only [hhas, Bool.not_true, Bool.false_eq_true, if_false]
+    rw [h1]
+    rfl
+  · unfold logDetRegularizationTerm
+    simp only [hhas, Bool.not_true, Bool.false_eq_true, if_false]
+    rw [h2]
+    rfl
+
+/-- (d5) fully regularized list: nothing is removed — there is no unregularized index, and the
+    reduced matrices / vector are `F + H`, `H` and `s` themselves. -/
+theorem d_all_regularized_nothing_removed [Field α] (objs : List (LinObj α)) (F : List (List α))
+    (s : List α) (hall : allHaveRegularization objs = true) :
+    noRegularizationIndexList objs = []
+    ∧ curvatureRegMatrixReduced F objs = curvatureRegMatrix F objs
+    ∧ regularizationMatrixReduced objs = regularizationMatrix objs
+    ∧ reconstructionReduced s objs = s := by
+  refine ⟨?_, by simp [curvatureRegMatrixReduced, hall], by simp [regularizationMatrixReduced, hall],
+    by simp [reconstructionReduced, hall]⟩
+  rw [noRegularizationIndexList_eq]
+  exact noRegFrom_nil_of_all objs 0 ((allHave_iff objs).mp hall)
+
+/-! ## non-vacuity: concrete instances (integer arithmetic; the divisions that matter are exact) -/
+
+/-- a 2×3 mask with junk in the masked cells: the masked-native statistics ignore the junk. -/
+example :
+    let f : FitInput Int :=
+      { useMask := true, isImaging := true, bits := [true, false, false, false, true, false],
+        data := [900, 7, 9, 13, -777, 3], noise := [-5, 2, 1, 4, 0, 2], model := [1, 2, 3, 0, 12345, 8],
+        background := 1 }
+    fitData f = [899, 6, 8, 12, -778, 2]
+    ∧ fitResidualMap f = [0, 4, 5, 12, 0, -6]
+    ∧ fitNormalizedResidualMap f = [0, 2, 5, 3, 0, -3]
+    ∧ fitChiSquaredMap f = [0, 4, 25, 9, 0, 9]
+    ∧ fitChiSquared f = 47
+    ∧ fitSignalToNoiseMap f = [0, 3, 8, 3, 0, 1] := by
+  decide
+
+/-- the slim evaluation of the same unmasked values gives the same maps and the same chi-squared. -/
+example :
+    let f : FitInput Int :=
+      { useMask := false, isImaging := true, bits := [true, false, false, false, true, false],
+        data := [7, 9, 13, 3], noise := [2, 1, 4, 2], model := [2, 3, 0, 8], background := 1 }
+    fitResidualMap f = [4, 5, 12, -6] ∧ fitChiSquaredMap f = [4, 25, 9, 9] ∧ fitChiSquared f = 47
+    ∧ fitReducedChiSquared f = 11 := by
+  decide
+
+/-- a partially regularized list (2 regularized parameters, then 1 unregularized, then 1 regularized):
+    index list, block-diagonal `H`, reduced matrices and the regularization term. -/
+example :
+    let objs : List (LinObj Int) :=
+      [{ params := 2, reg := some [[2, -1], [-1, 2]] }, { params := 1, reg := none },
+       { params := 1, reg := some [[3]] }]
+    let F : List (List Int) := [[5, 1, 0, 0], [1, 5, 1, 0], [0, 1, 4, 1], [0, 0, 1, 6]]
+    noRegularizationIndexList objs = [2]
+    ∧ hasRegularization objs = true ∧ allHaveRegularization objs = false
+    ∧ regularizationMatrix objs = [[2, -1, 0, 0], [-1, 2, 0, 0], [0, 0, 0, 0], [0, 0, 0, 3]]
+    ∧ curvatureRegMatrixReduced F objs = [[7, 0, 0], [0, 7, 0], [0, 0, 9]]
+    ∧ regularizationMatrixReduced objs = [[2, -1, 0], [-1, 2, 0], [0, 0, 3]]
+    ∧ reconstructionReduced [1, 2, 10, 3] objs = [1, 2, 3]
+    ∧ regularizationTerm [1, 2, 10, 3] objs = 33 := by
+  decide
 
 end C08
